@@ -9,6 +9,25 @@ Q = "/venv/bin/python /verif/fv/check.py {id} --tier quick"
 T = "/venv/bin/python /verif/fv/check.py {id} --tier thorough"
 
 CLAIMS = {
+    "C13": dict(
+        technique="structural rules on the named-array classes + layout abstract interpretation of both back-ends + container-use classification (static)",
+        engine="E2 layout + genlayout + AST rules",
+        text="Static: named_vector / named_covariance accept exactly the str() names of their arglist, refuse unknown names before storing, default to "
+             "zeros / unit variance, store the value given for a name unmodified at that name's enumeration index, refuse wrong shapes; "
+             "make_reading builds the sensor's own Reading; user containers are consumed only container-agnostically; every layout in python.py "
+             "and in the C++ generator originates in a sorted-by-name enumeration and no declaration-order value reaches one, so a bijective "
+             "renaming permutes both sides of every obligation consistently.",
+        note="Renaming invariance is derived from the layout obligations (sorted() with a total key is permutation invariant); run-time values are not computed.",
+        ref="3/C13"),
+    "C14": dict(
+        technique="validation matrix over the static call graph (guard recognisers by subject and relation, dominance by statement order); static",
+        engine="E6 guards + call graph",
+        text="Static: for each of the four compile entry points the call graph up to the first output action is walked and every fault class of the "
+             "property (three overlap pairs, coverage size+keys, calibration-map set equality, noise key/missing/negative, sensor free symbols, sensor "
+             "noise keys+sizes) must be discharged by an unconditional raise-guard; C++ entry points validate before _compile_impl, which generates "
+             "both texts before opening files; no guard applies set algebra or equality to a raw user container (valid definitions are accepted).",
+        note="Assumes Python is not run with -O (several guards are asserts). The recognisers check which collections are compared and how, not arithmetic.",
+        ref="3/C14"),
     "C02": dict(
         technique="abstract interpretation of the generator over name-layouts + iteration inventory rules + compile witnesses (static)",
         engine="E2 layout + genlayout + tmprules + E4 witness",
